@@ -175,10 +175,11 @@ def reqPrefix (r : Req) : Option Fields :=
   | _ => none
 
 /-- the `ProtoHandler` installed on the query: a SubscribeResponse is sent on the subscriber's
-    stream as it is; anything else is refused with an error and not forwarded. -/
-def relayOf (t : Str) : DevMsg → Option Out
-  | .resp id => some (.relayed t id)
-  | .other _ => none
+    stream as it is; anything else is refused with an error, which ends the target client's
+    receive loop (`client.run` returns on the first error), so nothing after it is relayed. -/
+def relays (t : Str) : List DevMsg → List Out
+  | .resp id :: rest => .relayed t id :: relays t rest
+  | _ => []
 
 /-- `sendSubscriptionRequest`: errors are discarded by the caller. -/
 def forward (dev : Dev) (kr : Str × Req) : List Out :=
@@ -186,7 +187,7 @@ def forward (dev : Dev) (kr : Str × Req) : List Out :=
   | none => []                                   -- GetByTarget failed: nothing is sent, nobody is told
   | some msgs =>
     if (reqPrefix kr.2).isNone then []            -- NewQuery: "Prefix field in SubscriptionList is nil"
-    else .subscribed kr.1 kr.2 :: msgs.filterMap (relayOf kr.1)
+    else .subscribed kr.1 kr.2 :: relays kr.1 msgs
 
 /-- `sendPollRequest`. -/
 def pollOne (dev : Dev) (kr : Str × Req) : List Out :=
